@@ -181,16 +181,22 @@ class Framer(tasking.Tasker):
 
     def prune(self):
         """
-        Recursively Prune (destroy) all insular auxiliary clones in all frames
+        Recursively Prune (destroy) all auxiliary clones in all frames
         Force exit if not done
         Called by Razer Actor when razing insular auxes from frame
+
+        Every clone listed in a frame of a pruned framer (insular or named) was
+        created for that framer only and is pruned with it so that its name is
+        freed as well. Otherwise rearing the same moot again under the freed
+        tag raises CloneError for the left over named clone.
         """
         if not self.done:
             console.profuse("Force exiting '{0}'\n".format(self.name))
             self.exitAll()
 
         for frame in self.frameNames.values():
-            prunables = [aux for aux in frame.auxes if aux.insular]
+            prunables = [aux for aux in frame.auxes
+                         if isinstance(aux, Framer) and not aux.original]
             for aux in prunables:
                 aux.prune()
                 frame.auxes.remove(aux)
